@@ -37,7 +37,18 @@ type layout struct {
 	// 2: q = [0 for a, b in [(1, 2)]]; 3: a, (b, c) = (1, (2, 3)); 4: q = a if b else c chains.
 	// Destructuring produces consecutive positioned instructions with the same position.
 	FillKind int `json:",omitempty"`
+	// W: 1 = the tokens to the left of the failing operation (of the calls, for a link layout) on its
+	// line include a string literal and an identifier made of 2-, 3- and 4-byte characters, so that
+	// byte offsets and rune columns differ.
+	W int `json:",omitempty"`
 }
+
+// wideNow is set while the innermost function of a chain is built with layout.W.
+var wideNow bool
+
+const wideText = "é日本𝄞ß"
+const wideIdent = "ÿ日ж"
+
 
 func fillerStmt(kind, i int) *Node {
 	switch kind {
@@ -57,6 +68,9 @@ func (l layout) String() string {
 	s := fmt.Sprintf("p%d,%d n%d,%d k%d L%d F%d", l.P1, l.P2, l.N1, l.N2, l.K, l.Lines, l.Fill)
 	if l.FillKind != 0 {
 		s += fmt.Sprintf(" kind%d", l.FillKind)
+	}
+	if l.W != 0 {
+		s += " wide"
 	}
 	return s
 }
@@ -127,12 +141,20 @@ func consts(k int) []*Node {
 
 // wrap puts an expression in parentheses (so that line breaks are legal)
 // and assigns it.
-func assignParen(e *Node) *Node { return Assign("=", Name("y"), Paren(e)) }
+func assignParen(e *Node) *Node {
+	if wideNow {
+		return Assign("=", Name(wideIdent), Paren(e))
+	}
+	return Assign("=", Name("y"), Paren(e))
+}
 
 // withFill prepends k position-free instructions to the evaluation of e by
 // building [c0, c1, ..., e][-1]... the list display carries no position, the
 // final index does, so the rows of e itself are preceded by k constants.
 func withFill(k int, e *Node) *Node {
+	if wideNow {
+		return Tuple(append(append([]*Node{{Kind: EStr, Str: wideText, Raw: true}}, consts(k)...), e)...)
+	}
 	if k == 0 {
 		return e
 	}
@@ -265,7 +287,7 @@ func allFailOps() []failOp {
 }
 
 // link kinds: how function i calls function i+1
-var linkKinds = []string{"direct", "lambda", "comp", "sorted", "max", "method-arg"}
+var linkKinds = []string{"direct", "lambda", "comp", "sorted", "max", "method-arg", "host-attr", "host-binary", "host-rbinary", "host-unary", "host-index", "host-call"}
 
 // chain builds the program for one case and returns the expected call stack.
 func chain(links []string, op failOp, l layout, linkLayout layout) (stmts []*Node, expect func() []frame) {
@@ -278,7 +300,9 @@ func chain(links []string, op failOp, l layout, linkLayout layout) (stmts []*Nod
 	}
 	var sites []site
 	// innermost function
+	wideNow = l.W != 0
 	body, at, builtin := op.build(l)
+	wideNow = false
 	var inner []*Node
 	for i := 0; i < l.Fill; i++ {
 		inner = append(inner, fillerStmt(l.FillKind, i))
@@ -317,6 +341,31 @@ func chain(links []string, op failOp, l layout, linkLayout layout) (stmts []*Nod
 			c.Named = []NamedArg{{"key", callee}}
 			e = c
 			ss = []site{{fname(i), c, "max"}}
+		case "host-attr":
+			in := pad(Attr(Call(Name("hv"), callee, Name("x")), "go"))
+			e = in
+			ss = []site{{fname(i), in, ""}}
+		case "host-binary":
+			in := pad(Bin("+", Call(Name("hv"), callee, Name("x")), Num(1)))
+			e = in
+			ss = []site{{fname(i), in, ""}}
+		case "host-rbinary":
+			in := pad(Bin("*", Num(1), Call(Name("hv"), callee, Name("x"))))
+			e = in
+			ss = []site{{fname(i), in, ""}}
+		case "host-unary":
+			in := Un("-", Call(Name("hv"), callee, Name("x")))
+			in.PadCols, in.NL = linkLayout.P1, linkLayout.N1
+			e = in
+			ss = []site{{fname(i), in, ""}}
+		case "host-index":
+			in := pad(Index(Call(Name("hv"), callee, Name("x")), Num(0)))
+			e = in
+			ss = []site{{fname(i), in, ""}}
+		case "host-call":
+			in := pad(Call(Call(Name("hv"), callee, Name("x"))))
+			e = in
+			ss = []site{{fname(i), in, "hostval"}}
 		case "method-arg":
 			in := pad(Call(callee, Name("x")))
 			e = Call(Attr(List(Num(1)), "index"), in)
@@ -325,6 +374,9 @@ func chain(links []string, op failOp, l layout, linkLayout layout) (stmts []*Nod
 		var b []*Node
 		for k := 0; k < linkLayout.Fill; k++ {
 			b = append(b, fillerStmt(linkLayout.FillKind, k))
+		}
+		if linkLayout.W != 0 {
+			e = Index(Tuple(&Node{Kind: EStr, Str: wideText, Raw: true}, e), Num(1))
 		}
 		ret := Return(Paren(e))
 		ret.PadLines = linkLayout.Lines
@@ -402,7 +454,7 @@ func checkCase(k kase, ops map[string]failOp) (msg string, src string) {
 	stmts, expect := chain(k.Links, op, k.Layout, k.LinkL)
 	src = Render(stmts)
 	th := &starlark.Thread{Name: "c16"}
-	_, err := starlark.ExecFileOptions(fileOpts, th, "p.star", src, nil)
+	_, err := starlark.ExecFileOptions(fileOpts, th, "p.star", src, hostPredeclared())
 	if err == nil {
 		return "harness: program did not fail", src
 	}
@@ -584,6 +636,19 @@ func enumerate(thorough bool, yield func(level string, k kase) bool) {
 				l := layout{Fill: f, FillKind: kind}
 				if !yield("L6b:preceding statements of every shape", kase{Links: []string{"direct"}, Op: op.name, Layout: l, LinkL: l}) {
 					return
+				}
+			}
+		}
+	}
+	// level 6c: multi-byte characters to the left of the failing operation and of the calls
+	for _, op := range ops {
+		for _, lk := range linkKinds {
+			for _, p1 := range []int{0, 1, 31, 63} {
+				for _, k := range []int{0, 3} {
+					l := layout{W: 1, P1: p1, K: k}
+					if !yield("L6c:multi-byte text to the left of the operation", kase{Links: []string{lk}, Op: op.name, Layout: l, LinkL: layout{W: 1, P1: p1}}) {
+						return
+					}
 				}
 			}
 		}
